@@ -127,4 +127,9 @@ impl Transport for DualTransport {
         // Create symlink on destination
         self.dest.create_symlink(target, dest).await
     }
+
+    async fn read_link(&self, path: &Path) -> Result<Option<std::path::PathBuf>> {
+        // Link inspection happens on the destination
+        self.dest.read_link(path).await
+    }
 }
